@@ -38,6 +38,25 @@ impl Default for Vfs {
     }
 }
 
+#[cfg(feature = "verif_hooks")]
+impl Vfs {
+    /// Verification hook: entry counts of the file maps (the node cache is an
+    /// interning cache and is deliberately left out). Read-only.
+    pub fn verif_census(&self) -> Vec<(&'static str, usize)> {
+        vec![
+            ("vfs.file_id_map", self.file_id_map.len()),
+            ("vfs.file_path_map", self.file_path_map.len()),
+            ("vfs.remote_file_id_map", self.remote_file_id_map.len()),
+            (
+                "vfs.file_data_live",
+                self.file_data.iter().filter(|it| it.is_some()).count(),
+            ),
+            ("vfs.line_index_map", self.line_index_map.len()),
+            ("vfs.tree_map", self.tree_map.len()),
+        ]
+    }
+}
+
 impl Vfs {
     pub fn new() -> Self {
         Vfs {
